@@ -24,7 +24,7 @@ def module(ctx):
     f2[2]["blocks"] = ("list", [b1, b2])
     f2[2]["end"] = ("some", walkx.inst("F2_END", "FunctionEnd"))
     m[2]["functions"] = ("list", list(m[2]["functions"][1]) + [f2])
-    return m
+    return walkx.grow(ctx, m)
 
 
 SECTION_ORDER = ["capabilities", "extensions", "ext_inst_imports", "memory_model", "entry_points", "execution_modes", "debug_string_source",
